@@ -303,6 +303,9 @@ pub fn plan(p: u32, tier: &str) -> Vec<Run> {
             add(s3(false), families::slots(3));
             add(s4(false), families::slots(4));
             add(s4d2ff(), families::slots(4));
+            // a job id re-declared with another kind between evaluations (robustness only: a kind change is a
+            // change of behaviour the engine is not told about, so the value-based oracles do not apply)
+            add(s("kindswap2-D3", 3, m), families::slots_kindswap(2));
             add(late("late2x", true), families::late_gadget(2, true));
             add(late3u(2), families::late3xu_oe());
             add(late("latepair", true), families::late_pair());
@@ -315,6 +318,9 @@ pub fn plan(p: u32, tier: &str) -> Vec<Run> {
             add(o, families::slots(3));
             add(shapes_spec("shapes-D2", 2, false), families::shapes(true));
             if thorough {
+                let mut ks = s("kindswap3-D2", 2, m);
+                ks.faults = vec![false, true];
+                add(ks, families::slots_kindswap(3));
                 let mut l3u = late("late3xu-k1", true);
                 l3u.edit_bound = Some(1);
                 add(l3u, families::late_gadget_opts(3, true, false, None));
@@ -344,6 +350,9 @@ pub fn plan(p: u32, tier: &str) -> Vec<Run> {
             add(s3(true), families::slots(3));
             add(s4(false), families::slots(4));
             add(s4d2ff(), families::slots(4));
+            // a job id re-declared with another kind between evaluations (robustness only: a kind change is a
+            // change of behaviour the engine is not told about, so the value-based oracles do not apply)
+            add(s("kindswap2-D3", 3, m), families::slots_kindswap(2));
             add(deep3("S3D4-ff", 4, vec![false; 4]), families::slots(3));
             add(deep3("S3D3-f010", 3, vec![false, true, false]), families::slots(3));
             add(late("late2x", true), families::late_gadget(2, true));
@@ -356,6 +365,9 @@ pub fn plan(p: u32, tier: &str) -> Vec<Run> {
             add(shapes_spec("shapes-D2", 2, false), families::shapes(true));
             add(rename("rename-prod", Conv::Parts, Cmp::Prod), families::rename_opts(false, Kind::O, false));
             if thorough {
+                let mut ks = s("kindswap3-D2", 2, m);
+                ks.faults = vec![false, true];
+                add(ks, families::slots_kindswap(3));
                 let mut l3u = late("late3xu-k1", true);
                 l3u.edit_bound = Some(1);
                 add(l3u, families::late_gadget_opts(3, true, false, None));
@@ -468,6 +480,9 @@ pub fn plan(p: u32, tier: &str) -> Vec<Run> {
             add(s3(false), families::slots(3));
             add(s4(false), families::slots(4));
             add(s4d2ff(), families::slots(4));
+            // a job id re-declared with another kind between evaluations (robustness only: a kind change is a
+            // change of behaviour the engine is not told about, so the value-based oracles do not apply)
+            add(s("kindswap2-D3", 3, m), families::slots_kindswap(2));
             add(late("late2x", true), families::late_gadget(2, true));
             add(late("latepair", true), families::late_pair());
             add(late("bigshapes", true), families::big_shapes());
@@ -476,6 +491,9 @@ pub fn plan(p: u32, tier: &str) -> Vec<Run> {
             add(chains(true), families::chains(6));
             add(shapes_spec("shapes-D1", 1, false), families::shapes(true));
             if thorough {
+                let mut ks = s("kindswap3-D2", 2, m);
+                ks.faults = vec![false, true];
+                add(ks, families::slots_kindswap(3));
                 add(s3d3(), families::slots(3));
                 add(shapes_spec("shapes-D2", 2, false), families::shapes(true));
                 add(s4d2k("S4D2-k1", 1, vec![false, true]), families::slots_full_only(4));
@@ -677,6 +695,9 @@ pub fn plan(p: u32, tier: &str) -> Vec<Run> {
             add(s3(false), families::slots(3));
             add(s4(false), families::slots(4));
             add(s4d2ff(), families::slots(4));
+            // a job id re-declared with another kind between evaluations (robustness only: a kind change is a
+            // change of behaviour the engine is not told about, so the value-based oracles do not apply)
+            add(s("kindswap2-D3", 3, m), families::slots_kindswap(2));
             add(late("late2x", true), families::late_gadget(2, true));
             add(late3u(2), families::late3xu_oe());
             add(late("latepair", true), families::late_pair());
@@ -687,6 +708,9 @@ pub fn plan(p: u32, tier: &str) -> Vec<Run> {
             add(s("S3D2-volatile", 2, m), families::slots_volatile(3));
             add(shapes_spec("shapes-D2", 2, false), families::shapes(true));
             if thorough {
+                let mut ks = s("kindswap3-D2", 2, m);
+                ks.faults = vec![false, true];
+                add(ks, families::slots_kindswap(3));
                 let mut l3u = late("late3xu-k1", true);
                 l3u.edit_bound = Some(1);
                 add(l3u, families::late_gadget_opts(3, true, false, None));
@@ -1084,6 +1108,8 @@ pub fn cmd_run(args: &[String]) -> i32 {
         "rename-y" => families::rename_opts(true, Kind::O, false),
         "renameE" => families::rename(true, Kind::E),
         "shapes" => families::shapes(true),
+        "kindswap2" => families::slots_kindswap(2),
+        "kindswap3" => families::slots_kindswap(3),
         "late2" => families::late_gadget(2, true),
         "late2r" => families::with_slot_removals(families::late_gadget(2, true)),
         "late3" => families::late_gadget(3, false),
